@@ -143,7 +143,14 @@ theorem C03_errwrap_once (callee : String → List Val → Trace → CallRes) (c
   · intro as env1 tr1 ha
     simp only [Doc.errBang, Doc.wrappedCall, ha, Res.bind_ok, bangAfter]
     cases callee f as tr1 with
-    | vals vs t => cases hs : splitErr vs <;> simp [hs]
+    | vals vs t =>
+      cases hs : splitErr vs with
+      | none => simp [hs]
+      | some r =>
+        simp only [hs, Res.bind_ok]
+        cases hv : isNilVal r.2 with
+        | none => simp
+        | some b => cases b <;> simp
     | _ => rfl
   · intro callee' hno
     simp only [Doc.errBang, Doc.wrappedCall]
